@@ -81,3 +81,74 @@ func VerifSELFContains() {
 	verifnd.Assert(got == want, "SELF.contains")
 	verifnd.Reach("SELF.contains.done")
 }
+
+// VerifSELFSelectRendezvous: a send case and a receive case of two selects meet
+// on an unbuffered channel only together: whenever the sender's case fired the
+// receiver's case fired too (both selects have an alternative that is ready).
+func VerifSELFSelectRendezvous() {
+	ch := make(chan int)
+	stop := make(chan struct{})
+	done := make(chan struct{})
+	sent, got := 0, 0
+	close(stop)
+	go func() {
+		for i := 0; i < 2; i++ {
+			select {
+			case <-stop:
+			case v := <-ch:
+				got += v
+			}
+		}
+		close(done)
+	}()
+	for i := 0; i < 2; i++ {
+		select {
+		case ch <- 1:
+			sent++
+		case <-done:
+		}
+	}
+	verifnd.Settle()
+	verifnd.Assert(sent == got, "SELF.select.rendezvous-is-atomic")
+	verifnd.Reach("SELF.select.done")
+}
+
+// VerifSELFSelectParked: a receiver parked in a select (nothing ready) that is
+// then offered a value by a sender's select while another of its cases becomes
+// ready at the same time: the value is either taken by the receiver or the send
+// did not happen - never "sent but not received".
+func VerifSELFSelectParked() {
+	ch := make(chan int)
+	stop := make(chan struct{})
+	done := make(chan struct{})
+	sent, got := 0, 0
+	go func() {
+		for {
+			stopped := false
+			select {
+			case <-stop:
+				stopped = true
+			case v, ok := <-ch:
+				if ok {
+					got += v
+				}
+			}
+			if stopped {
+				break
+			}
+		}
+		close(done)
+	}()
+	verifnd.Yield() // let the receiver park
+	go func() { close(stop) }()
+	for i := 0; i < 2; i++ {
+		select {
+		case ch <- 1:
+			sent++
+		case <-done:
+		}
+	}
+	verifnd.Settle()
+	verifnd.Assert(sent == got, "SELF.select.parked-rendezvous-is-atomic")
+	verifnd.Reach("SELF.select.parked.done")
+}
